@@ -55,8 +55,13 @@ def run(ck: vlib.Check):
         cases.append((f"{label}#{i}", base, A.gen_scenario(rng, base), label))
     impl = []
     for label, base, spec, bl in cases:
-        r = A.run_impl(base, spec)
+        r, resave = A.run_impl_with_base(base, spec)
         impl.append(r)
+        if unedited[bl][0] == 1 and resave != unedited[bl]:
+            # the map value the edits started from is still there, untouched: saving it must give what it always gave
+            what = "raises" if resave[0] == 0 else "; ".join(RC.chunk_diff(bytes(unedited[bl][1]), bytes(resave[1]))[:2])
+            ck.violation(f"{label}: after an edited copy was saved, saving the ORIGINAL map object gives something else: {what}",
+                         {"kind": "base-resave", "label": label, "base_hex": base.hex(), "spec": spec}, True)
         ck.evaluations += 1
         ck.note_case(label + json.dumps(spec, sort_keys=True)[:2000])
         u = unedited[bl]
@@ -86,6 +91,12 @@ def run(ck: vlib.Check):
 def replay(path: str) -> int:
     rp = json.loads(Path(path).read_text())
     print("replaying:", rp.get("what"))
+    if rp.get("kind") == "base-resave":
+        base = bytes.fromhex(rp["base_hex"])
+        r, resave = A.run_impl_with_base(base, rp["spec"])
+        bad = resave != RC.impl_load_save(base)
+        print("still failing" if bad else "no longer failing")
+        return 1 if bad else 0
     if rp.get("kind") == "frozen":
         base = bytes.fromhex(rp["base_hex"])
         r, u = A.run_impl(base, rp["spec"]), RC.impl_load_save(base)
